@@ -11,7 +11,7 @@ F == T.fields[fi]
 EmitCases ==
   F.kind = "string" \/
   PrintT(ToJson([ti |-> ti, fi |-> fi, type |-> T.name, field |-> F.name, kind |-> F.kind,
-                 groups |-> {[L |-> L, priors |-> PriorsL(T, F, L), values |-> ValuesL(T, F, L)] : L \in Sizes(T)}]))
+                 groups |-> Groups(T, F)]))
 EmitOverlaps ==
   \A gi \in 1..Len(T.fields) :
      (gi > fi /\ T.fields[gi].kind # "string" /\ F.kind # "string" /\ Overlaps(F, T.fields[gi]))
